@@ -75,7 +75,12 @@ Definition s_enc (e : option enc_class) : sx :=
   | None => s_err
   end.
 
-Definition s_hint (h : N) : sx := SL [sx_N h; sx_N h].
+Definition s_hint (h : N * N) : sx := SL [sx_N (fst h); sx_N (snd h)].
+
+(* what the std adapters of the harness's probe return when size_hint keeps its promises *)
+Definition s_adapters (n : nat) : sx :=
+  let n' := N.of_nat n in
+  SL [sx_N n'; sx_N (n' / 2); sx_N (2 * n'); sx_N n'; sx_N (N.min n' 3)].
 
 Definition run_doc (d : doc) : sx :=
   let m := d_objects d in
@@ -94,7 +99,7 @@ Definition run_doc (d : doc) : sx :=
       Some (SL (map (fun k => s_optres dict_to_sx (get_dict_in_dict m (snd x) k))
                     [Q_Resources; Q_Next; Q_A; Q_XObject]))));
     group "hint" (let '(h0, y, h1) := hint_probe d in
-                  Some (SL [s_hint h0; s_opt oid_to_sx y; s_hint h1]));
+                  Some (SL [s_hint h0; s_opt oid_to_sx y; s_hint h1; s_adapters (length (page_iter d))]));
     group "pages" (Some (SL [s_ids (page_iter d);
                              SL (map (fun p => SL [sx_N (fst p); oid_to_sx (snd p)]) (get_pages d))]));
     group "contents" (per ids oid_to_sx (fun id =>
